@@ -6,6 +6,7 @@
    latency (the writer not being scheduled inside the write function) and instant of Close.
    Constants and the key table come from gen/Gen_EventWriter.v (regenerated from writer.go). *)
 From Verif Require Import Common Gen_EventWriter EventWriter EventWriter_proofs.
+From Verif Require Import Gen_EventRegistry EventRegistry EventRegistry_proofs.
 Open Scope N_scope.
 
 (* ---- exactly once, in order ---- *)
@@ -236,6 +237,63 @@ Theorem C19_full_accepts_all_in_order : forall sched l,
 Proof. exact full_accepts_all. Qed.
 Print Assumptions C19_full_accepts_all_in_order.
 
+(* ---- the per-topic writer registry (core/the: EventWriterWithTopic, ClearEventWriters) ---- *)
+(* Model: model/EventRegistry.v — any number of goroutines, each in one call of
+   createOrGetWriter (fast path if the code has one, Lock, lookup under the lock if the code has
+   it, create and store, Unlock) or of ClearEventWriters; a schedule is a list of goroutine
+   numbers; the theorems hold for every assignment [ops] of calls to goroutines and every schedule.
+   The lock discipline is read from core/the/eventwriter.go on every run (gen/Gen_EventRegistry.v). *)
+Theorem C19_registry_lock_discipline :
+  er_lock_exclusive = true /\ er_check_under_lock = true /\ er_write_under_lock = true /\
+  er_returns_stored = true /\ er_entry_sync = true /\
+  er_clear_locked = true /\ er_clear_closes_each = true /\ er_clear_empties = true.
+Proof. exact registry_discipline. Qed.
+Print Assumptions C19_registry_lock_discipline.
+
+(* at most one writer of a topic is alive (built and not closed) at any time, and it is the
+   registered one *)
+Theorem C19_registry_one_live_writer_per_topic : forall ops sched t w1 w2,
+  let s := rrun ops sched rinit in
+  live s t w1 -> live s t w2 -> w1 = w2 /\ In (t, w1) (r_reg s).
+Proof. exact one_live_writer. Qed.
+Print Assumptions C19_registry_one_live_writer_per_topic.
+
+(* until ClearEventWriters is called, at most one writer per topic is ever built *)
+Theorem C19_registry_one_writer_per_topic_ever : forall ops sched t w1 w2,
+  let s := rrun ops sched rinit in
+  r_closed s = [] -> In (t, w1) (r_created s) -> In (t, w2) (r_created s) -> w1 = w2.
+Proof. exact one_writer_per_topic_ever. Qed.
+Print Assumptions C19_registry_one_writer_per_topic_ever.
+
+(* all producers of one topic are handed the same writer — hence one channel, one FIFO, one
+   writing loop, to which C19_per_producer_order applies — and it is the registered one *)
+Theorem C19_registry_same_writer_for_all_producers : forall ops sched g1 g2 t w1 w2,
+  let s := rrun ops sched rinit in
+  ops g1 = RGet t -> ops g2 = RGet t ->
+  r_pc s g1 = RDone (Some w1) -> r_pc s g2 = RDone (Some w2) ->
+  ~ In w1 (r_closed s) -> ~ In w2 (r_closed s) ->
+  w1 = w2 /\ In (t, w1) (r_reg s).
+Proof. exact same_writer_for_all. Qed.
+Print Assumptions C19_registry_same_writer_for_all_producers.
+
+(* the writer a call is about to return is, at that moment, the registered, alive writer of its
+   topic (and the caller still holds the lock) *)
+Theorem C19_registry_handed_out_is_registered : forall ops sched g t w,
+  let s := rrun ops sched rinit in
+  ops g = RGet t -> r_pc s g = RHave w ->
+  In (t, w) (r_reg s) /\ live s t w /\ r_lock s = Some g.
+Proof. exact handed_out_is_registered. Qed.
+Print Assumptions C19_registry_handed_out_is_registered.
+
+(* shutdown: when ClearEventWriters has done its work, every writer ever built — hence every
+   writer ever handed out — has been closed (so C19_flush applies to each) and the registry is empty *)
+Theorem C19_registry_clear_closes_all : forall ops sched g,
+  let s := rrun ops sched rinit in
+  ops g = RClear -> r_pc s g = RCleared ->
+  r_reg s = [] /\ forall t w, In (t, w) (r_created s) -> In w (r_closed s).
+Proof. exact clear_closes_all. Qed.
+Print Assumptions C19_registry_clear_closes_all.
+
 (* ---- the schedules forced by the harness are schedules of the model ---- *)
 (* (every operation, OFull included: [coarse_sched] is built from [op_labels]) *)
 Theorem C19_forced_schedules_are_schedules : forall ops,
@@ -277,3 +335,12 @@ Proof.
   rewrite stalled_returns_closed_form; [vm_compute; reflexivity| |vm_compute; reflexivity].
   rewrite <- forced_schedule_is_schedule. vm_compute. reflexivity.
 Qed.
+
+(* non-vacuity of the registry theorems: three producers of topic 7 and one of topic 8, two of
+   them waiting for the lock, then ClearEventWriters *)
+Example C19_registry_nonvacuous :
+  let s := rrun ex_ops ex_sched rinit in
+  r_pc s 0%nat = RDone (Some 0) /\ r_pc s 1%nat = RDone (Some 0) /\ r_pc s 2%nat = RDone (Some 0) /\
+  r_pc s 3%nat = RDone (Some 1) /\ r_pc s 4%nat = RCleared /\
+  r_created s = [(8, 1); (7, 0)] /\ r_closed s = [1; 0].
+Proof. exact registry_example. Qed.
